@@ -224,9 +224,9 @@ class Operation(ABC):
                 if backed_grad.dtype != var.dtype:
                     backed_grad = backed_grad.astype(var.dtype, copy=False)
 
-                if (
-                    backed_grad.ndim > 1
-                    and backed_grad.flags.c_contiguous != var.data.flags.c_contiguous
+                if backed_grad.ndim > 1 and not (
+                    (var.data.flags.c_contiguous and backed_grad.flags.c_contiguous)
+                    or (var.data.flags.f_contiguous and backed_grad.flags.f_contiguous)
                 ):
                     # Store the gradient in the memory layout of the tensor's data, so
                     # that a view-op replayed on the gradient produces a view exactly
